@@ -352,9 +352,13 @@ pub fn judge(cfg: &Config) -> Result<(Coding, bool), (String, String)> {
         }
         return Ok((Coding::Identity, true));
     }
+    let bodiless_status = (100..200).contains(&cfg.status) || cfg.status == 204;
     let used = match (te_vals.len(), cl_vals.len()) {
         (1, 0) if te_vals[0].eq_ignore_ascii_case("chunked") => Coding::Chunked,
         (0, 1) => Coding::Identity,
+        // 1xx and 204 never have a body: RFC 7230 3.3.2 forbids Content-Length there and a
+        // client ignores it, so identity without the header is accepted for these two classes
+        (0, 0) if bodiless_status => Coding::Identity,
         _ => {
             return Err((
                 "framing-headers".into(),
@@ -362,7 +366,7 @@ pub fn judge(cfg: &Config) -> Result<(Coding, bool), (String, String)> {
             ))
         }
     };
-    if used == Coding::Identity && cl_vals[0] != body.len().to_string() {
+    if used == Coding::Identity && !cl_vals.is_empty() && cl_vals[0] != body.len().to_string() {
         return Err((
             "content-length".into(),
             format!("Content-Length {} but the body has {} bytes", cl_vals[0], body.len()),
@@ -497,6 +501,7 @@ impl Check for C05 {
             "ties between chunked and identity at equal q are accepted either way (the statement does not rank them)".into(),
             "malformed q values are judged only for robustness: no panic, exactly one framing, never chunked where forbidden".into(),
             "declared lengths are correct (the quantifier of C04/C05)".into(),
+            "for 1xx and 204 responses (never a body) identity framing is accepted with a Content-Length equal to the body length or with none: RFC 7230 3.3.2 forbids the header there".into(),
         ]
     }
     fn replay(&self, replay: &Value, acc: &mut Acc) {
